@@ -927,8 +927,14 @@ fn run_search(w: &World, st: &[String]) -> String {
         cbs.on_edge(e);
     };
     // closures that are set and then REPLACED by the step's own method (filter and for_each share one slot: the later call wins)
-    let mut nf = |_e: &Ed| false;
-    let mut ne = |_e: &Ed| {};
+    let replaced_called = std::cell::Cell::new(false);
+    let mut nf = |_e: &Ed| {
+        replaced_called.set(true);
+        false
+    };
+    let mut ne = |_e: &Ed| {
+        replaced_called.set(true);
+    };
     // the builder calls are made in an order chosen per step (a pure function of the step text)
     let variant: u32 = st.iter().map(|t| t.bytes().map(|b| b as u32).sum::<u32>()).sum::<u32>() % 4;
     let wrong_key: Kt = Kt::of(999_983);
@@ -1120,5 +1126,7 @@ fn run_search(w: &World, st: &[String]) -> String {
         }
         _ => "bad-algo".to_string(),
     };
-    format!("{}{}", res, cbs.tail(meth != Meth::None))
+    // a closure that a later setter replaced must never be called (setters replace, they do not chain)
+    let marker = if replaced_called.get() { " A-REPLACED-CLOSURE-WAS-CALLED" } else { "" };
+    format!("{}{}{}", res, cbs.tail(meth != Meth::None), marker)
 }
